@@ -457,7 +457,7 @@ void cstl_array_slice(cstl_array_t * const a,
 
     if (ra == NULL
         || end < beg
-        || a->off + end > ra->nm) {
+        || end > ra->nm - a->off) {
         abort();
     }
 
